@@ -26,17 +26,18 @@ type GenCfg struct {
 }
 
 type srcGen struct {
-	r        *rand.Rand
-	cfg      GenCfg
-	caps     []string // captures declared so far in this command
-	subs     []string // inline subroutines declared so far in this command
-	loops    []string // named loops declared so far in this command (table-valued variables)
-	globals  []string // global patterns
-	trans    []string // transforms
-	nameCtr  int
-	lits     []string // literal strings used (for text generation)
-	inSub    string   // name of the subroutine being defined (for recursion)
-	features map[string]int
+	r           *rand.Rand
+	cfg         GenCfg
+	inTransform bool     // generating the body of a transform (built-in names may be read)
+	caps        []string // captures declared so far in this command
+	subs        []string // inline subroutines declared so far in this command
+	loops       []string // named loops declared so far in this command (table-valued variables)
+	globals     []string // global patterns
+	trans       []string // transforms
+	nameCtr     int
+	lits        []string // literal strings used (for text generation)
+	inSub       string   // name of the subroutine being defined (for recursion)
+	features    map[string]int
 }
 
 var alphabet = []string{"a", "b", "c"}
@@ -319,6 +320,11 @@ func (g *srcGen) pexpr(depth int, want string, vars []string) string {
 	case "string":
 		switch {
 		case x < 0.2:
+			if g.inTransform && g.chance(0.45) {
+				// the per-match built-ins are in a transform's environment whether or not the with list names them
+				g.feat("transform-reads-builtin")
+				return []string{"startOffset", "endOffset", "lineNumber", "columnNumber", "totalMatches", "value", "filename", "matchNumber"}[g.pick(8)]
+			}
 			return []string{"match", "match", "'x'", "''", "'12'", "'-3'"}[g.pick(6)]
 		case x < 0.4 && len(vars) > 0:
 			return vars[g.pick(len(vars))]
@@ -378,6 +384,8 @@ func (g *srcGen) predicate() string {
 
 func (g *srcGen) transform(vars []string) string {
 	g.feat("transform")
+	g.inTransform = true
+	defer func() { g.inTransform = false }()
 	want := "string"
 	if g.chance(0.4) {
 		want = "number"
@@ -386,6 +394,13 @@ func (g *srcGen) transform(vars []string) string {
 	locals := append([]string{}, vars...)
 	// transform-local assignments, including ones that consume `match` or accumulate into an unset name
 	nset := g.pick(3)
+	if g.chance(0.06) {
+		// reads, in an operation only a number / a boolean allows, a name that OTHER bodies of the same source assign
+		// (n, i: numbers) but this one has not assigned yet: ill-typed here (Compile must reject it, whatever was
+		// compiled before), and a crash at run time if it is accepted
+		g.feat("transform-reads-foreign-local")
+		stmts = append(stmts, []string{"set q to n - 'b'", "set q to i * 'c'", "if i and true then return 'k' end"}[g.pick(3)])
+	}
 	for i := 0; i < nset; i++ {
 		switch g.pick(6) {
 		case 0:
